@@ -82,6 +82,7 @@ Dims == [
                     \* *Reason8: the entry states reason removeFromCRL (a listed serial is revoked whatever the entry says); leafSerial: harmless coincidence
   pckCrlSigner  |-> <<"inter", "root", "rootNamedInter", "foreignNamed", "otherPki", "foreignWithHeader">>,
   rootCrlSigner |-> <<"root", "inter", "interNamedRoot", "foreignNamed">>,
+  crlChain      |-> <<"distinct", "shared">>,  \* shared: the PCK CRL response carries the very certificates of the quote's chain as its issuer chain (as Intel serves it)
   crlShape      |-> <<"std", "noNumber">>,     \* both CRLs without a cRLNumber extension: still the issuer's signed list of revoked serials
   pckCrlFetch   |-> <<"ok", "error", "garbage", "otherIssuer", "hdrMissing">>,
   rootCrlDps    |-> <<"ok", "errorThenOk", "garbageThenOk", "none", "error", "garbage", "errorError", "malformedThenOk">>,
@@ -161,7 +162,11 @@ Gov == [leaf |-> "PckCertChain", inter |-> "PckCertChain", root |-> "PckCertChai
 \* puts its expiry E between the two clocks (governing clock before/at E, hence the other clock after E) it is expired at the other clock.
 SignerTwin(a) == CASE a = "qeSigner" -> "tcbSigner" [] a = "tcbSigner" -> "qeSigner"
                    [] a = "qeRoot" -> "tcbRoot" [] a = "tcbRoot" -> "qeRoot" [] OTHER -> "none"
+\* likewise the quote's intermediate / root and the PCK CRL's issuer chain, when they are the same certificates
+CrlShared(w) == w.crlChain = "shared" /\ w.src = "gen" /\ w.interPki = w.leafPki /\ w.rootPki = w.leafPki /\ w.interSlot = "inter"
+CrlTwin(a) == CASE a = "inter" -> "pckCrlSigner" [] a = "pckCrlSigner" -> "inter" [] a = "root" -> "pckCrlRoot" [] a = "pckCrlRoot" -> "root" [] OTHER -> "none"
 Expired(w, a)  == \/ (TimeArt(w) = a /\ TimePos(w) = "after")
+                  \/ (CrlShared(w) /\ CrlTwin(a) # "none" /\ TimeArt(w) = CrlTwin(a) /\ TimePos(w) \in {"before", "at"})
                   \/ (w.sharedSigner = "shared" /\ SignerTwin(a) # "none" /\ TimeArt(w) = SignerTwin(a) /\ TimePos(w) \in {"before", "at"})
 NotYet(w, a)   == TimeArt(w) = a /\ TimePos(w) = "preNB"
 \* which artefacts an option level needs at all
